@@ -390,3 +390,6 @@ def run(chk):
     chk.guard("R5", lambda: r5_wrapper(chk))
     from .c05 import import_lookup_contracts
     chk.guard("R7", lambda: import_lookup_contracts(chk, "R7", ["ghost", "child", "field_attr_core", "has_parent_attr", "has_parameterless_parent_attr", "parameterized_parent_attr", "ghosts_attr", "child_parents_attr"]))
+    from .c12 import import_parse_contracts
+    chk.guard("R8", lambda: import_parse_contracts(chk, "R8"))
+
